@@ -502,3 +502,28 @@ Proof.
 Qed.
 
 End EndToEnd.
+
+(* the statements of Props/C10.v with the table length made explicit *)
+Lemma overload_names_injective_36 name idx idx' :
+  0 <= idx < 36 -> 0 <= idx' < 36 ->
+  gen_overloadFuncName name idx = gen_overloadFuncName name idx' -> idx = idx'.
+Proof. intros H H'. apply overload_names_injective; rewrite table_len; assumption. Qed.
+
+Lemma overload_names_injective_across_36 name name' idx idx' :
+  0 <= idx < 36 -> 0 <= idx' < 36 ->
+  gen_overloadFuncName name idx = gen_overloadFuncName name' idx' -> name = name' /\ idx = idx'.
+Proof. intros H H'. apply overload_names_injective_name; rewrite table_len; assumption. Qed.
+
+Lemma overloadFuncName_panics_from_36 name idx : 36 <= idx -> gen_overloadFuncName name idx = Panic.
+Proof. intros H. apply gen_overloadFuncName_panic. right. rewrite table_len. exact H. Qed.
+
+Lemma tables_agree_both : gogen_indexTable = gen_indexTable /\ gogen_gopoPrefix = [71;111;112;111;95]%N.
+Proof. split; [exact tables_agree|exact gopo_prefix]. Qed.
+
+Lemma resolve_perm_any (C A : Type) (accepts : C -> A -> bool) cs cs' a :
+  pairwise_distinguishable accepts cs -> Permutation cs cs' -> resolve accepts cs a = resolve accepts cs' a.
+Proof. apply resolve_perm. Qed.
+
+Lemma resolve_complete_any (C A : Type) (accepts : C -> A -> bool) cs a c :
+  pairwise_distinguishable accepts cs -> In c cs -> accepts c a = true -> resolve accepts cs a = Some c.
+Proof. apply resolve_complete. Qed.
